@@ -2104,6 +2104,8 @@ class Interp:
                 r = s.fork()
                 event = self._emit(r, 'getattr', expr, fr, exit='ext:AttributeError')
                 raised.append((('raise', Exc('ext:AttributeError', event)), r))
+                # ... or succeed: the guarded lookup is on record either way
+                self._emit(s, 'getattr', expr, fr, exit='normal')
         if isinstance(expr.ctx, ast.Load):
             props = self._property_callees(expr, fr)
             if props:
